@@ -20,13 +20,14 @@ VARIABLE i
 cvars == <<ctx, sout, i>>
 CInit == Set2Init /\ i = 1
 CNext == \E b \in Bytes : G[i].expanded /\ INext(i, b) # 0 /\ Byte2(b) /\ i' = INext(i, b)
+View == <<ctx, i>>     \* sout is an observation: hidden from the product state identity
 CSpec == CInit /\ [][CNext]_cvars
 
 Conforms ==
   IF ~G[i].expanded
-  THEN Bad([prop |-> "C01", kind |-> "unbounded", comp |-> Comp, access |-> G[i].access,
+  THEN BadB([prop |-> "C01", kind |-> "unbounded", comp |-> Comp, access |-> G[i].access,
             note |-> "implementation state space exceeds the exploration cap"])
-  ELSE ReportAll({ b \in Bytes : IOut(i, b) # Set2Out(ctx, b) },
+  ELSE ReportAllB({ b \in Bytes : IOut(i, b) # Set2Out(ctx, b) },
          LAMBDA b : [prop |-> IF IOut(i, b)[1] = "panic" THEN "C08" ELSE "C01", kind |-> "io",
                      comp |-> Comp, ctx |-> ctx, access |-> G[i].access, input |-> b,
                      observed |-> IOut(i, b), expected |-> Set2Out(ctx, b)])
